@@ -48,6 +48,34 @@ def run(ctx):
                 ctx.sample({"history": H.log[:5]})
         if ctx.violations:
             break
+    # targeted: the only unique record of some content sits in a backup whose manifest becomes unreadable; a later backup holds an extern
+    # record for it; then the content shows up under a new path - it must be stored again, an extern record vouches for nothing
+    if not ctx.violations:
+        with slevel.Sandbox("c02") as sb:
+            H = runs.History(ctx, sb, rng, "C02", 3, 6, identity_changes=True)
+            H.advance = lambda: None
+            H.now += 3600
+            H.w.populate(nfiles=4)
+            top = os.path.join(H.w.src, H.w.items[0])
+            blob = bytes((i * 11 + 5) % 251 for i in range(20000))
+            H.w.write_file(os.path.join(top, "a.bin"), blob)
+            for step in range(3):
+                if step == 2:
+                    la, _ = runs.listing(H.dec)
+                    g, fin = la[-1][0], la[-1][1]
+                    with open(os.path.join(H.w.st, g, fin[0], "metadata.zst"), "wb") as f:
+                        f.write(b"garbage, not zstd")
+                    H.dec = H.w.decode()
+                    H.debris_seeded = True
+                    H.unreadable = (g, fin[0])
+                    H.log.append({"corrupted manifest": "%s/%s" % (g, fin[0])})
+                    H.w.write_file(os.path.join(top, "b.bin"), blob)
+                    ctx.count("targeted.unique-record-lost-then-content-at-new-path")
+                H.now += 61
+                H.run(nedits=0)
+                if ctx.violations:
+                    break
+            H.report_diffs("backup-run")
     # content that changes between the two read passes of a new file, with a copy of the old content archived later in the same run: the
     # hash of the first pass must not become something an extern line can refer to
     if not ctx.violations:
